@@ -47,6 +47,8 @@ func (h *Handler) handleDecline(p packet.DHCP4, options packet.DHCP4Options) (d 
 	lease.State = StateFree
 	lease.Addr.IP = netip.Addr{}
 	lease.IPOffer = netip.Addr{}
+	// persist: otherwise a restart brings the declined lease back and the address is offered again
+	h.saveConfig(h.filename)
 	return nil
 }
 
